@@ -317,6 +317,7 @@ func checkC01(c *Ctx, r *Report) {
 	r.rule("C01.R2", "debit step: refund R - p on p < R, debit p - R otherwise (TERMINATION); reservation cleared only after success", 4)
 	r.rule("C01.R3", "account server applies exactly the stated amounts (shared with C07.R1/R2)", 6)
 	r.rule("C01.R5", "accounting cells of the subscriber are written only by the listed writers; the balance only by the CCR handler", 4)
+	r.rule("C01.R8", "every rating group is rated and debited under its own identifier and with numbers of full width: neither server narrows a look-up key taken from the request or a number parsed from the database (shared with C07.R7/C08.R6)", 4)
 	r.rule("C01.R7", "the reserve step and the debit step of a rating group exclude each other within one request (the mode is not re-read after it may have been switched)", 1)
 	r.rule("C01.R6", "account server stores the balance before it answers (shared with C07.R5)", 1)
 
@@ -460,6 +461,8 @@ func checkC01(c *Ctx, r *Report) {
 
 	// ---- R3 / R6: account server
 	abmfRules(c, r, "C01.R3", "C01.R3", "", "", "C01.R6", "")
+	abmfWidthRules(c, r, "C01.R8")
+	rfWidthRules(c, r, "C01.R8")
 
 	// ---- R5 who may write
 	checkCellWriters(c, r, "C01.R5")
@@ -750,6 +753,7 @@ func checkC06(c *Ctx, r *Report) {
 	r.rule("C06.R2", "granted volume = min(AllowedUnits, requested) in reserve mode, 0 in debit mode", 2)
 	r.rule("C06.R3", "final-unit indication set exactly when the account server signalled TERMINATE", 1)
 	r.rule("C06.R4", "account server grants min(request, balance) (shared with C07.R1)", 4)
+	r.rule("C06.R7", "the money a grant is measured against is that of the request's own subscriber and rating group, in full width (shared with C07.R7/C08.R6)", 4)
 	r.rule("C06.R6", "the reservation, unit-cost and mode cells are changed only by the accounting transitions the other rules describe, and the context that holds them is not dropped on the request path (shared with C01.R5)", 4)
 	r.rule("C06.R5", "the rating function converts reserved money into units by floor division: AllowedUnits = quota div unit cost, Price = units x unit cost (shared with C08.R2)", 2)
 
@@ -929,6 +933,22 @@ func checkC06(c *Ctx, r *Report) {
 		okAll = false
 		why = "the final-unit indication of the account server is never propagated to the response"
 	}
+	// the response holds the *address* of the indication: every rating group needs its own object
+	for _, ref := range *fuiLocal.Referrers() {
+		st, ok := ref.(*ssa.Store)
+		if !ok || st.Val != ssa.Value(fuiLocal) {
+			continue
+		}
+		avoid := map[*ssa.BasicBlock]bool{fuiLocal.Block(): true}
+		if st.Block() != fuiLocal.Block() {
+			for _, sc := range st.Block().Succs {
+				if sc == st.Block() || reachableFrom(sc, nil, nil, avoid)[st.Block()] {
+					okAll = false
+					why = "the address of one indication object (declared at " + posOf(c, fuiLocal) + ", outside the loop over the rating groups) is put into the unit information of every rating group at " + posOf(c, st) + ": the indication written for one rating group is overwritten - or reset - by the iterations that follow, and the response loses the final-unit indication of a group that ran short"
+				}
+			}
+		}
+	}
 	r.check(okAll, "C06.R3", key+"|final-unit", c.rel(f.Pos()), "set only on the edge FinalUnitIndication != nil && FinalUnitAction == TERMINATE of the account answer", why)
 
 	// ---- R4
@@ -936,6 +956,8 @@ func checkC06(c *Ctx, r *Report) {
 
 	// ---- R5: the CHF trusts the rating function to turn money into units
 	rfRules(c, r, "", "C06.R5", "", "", "C06.R5")
+	rfWidthRules(c, r, "C06.R7")
+	abmfWidthRules(c, r, "C06.R7")
 	checkCellWriters(c, r, "C06.R6")
 }
 
